@@ -27,6 +27,10 @@ CONFIGS = {
     # tasks that catch their cancellation and shut down gracefully; repeated cancel() during the shutdown
     'cancel_grace': dict(B, NRoots=1, MaxActs=3, MaxScopes=1, RootOps=6, TaskOps=2, Horizon=3,
                          Menu={'instant', 'sleep', 'open', 'do', 'do_grace', 'cancel', 'leave'}),
+    # a task waiting for a flag is cancelled, woken and cancelled again within one time step
+    # (two controllers: the second cancel() comes from another activity before the first one is delivered)
+    'cancel_wake': dict(B, NRoots=2, MaxActs=3, MaxScopes=1, RootOps=5, TaskOps=1, Horizon=1,
+                        Menu={'sleep', 'open', 'do', 'cancel', 'fset', 'await_f', 'leave'}),
     # a cancellation racing with a forced close of the same task
     'cancel_close': dict(B, NRoots=1, MaxActs=3, MaxScopes=1, RootOps=5, TaskOps=2,
                          Menu={'leave', 'instant', 'open', 'do', 'cancel', 'raise'}),
